@@ -1,6 +1,6 @@
 (* Theorems about Model/Regress.v: smoothing matrix (coded vs gradient Gram matrix), symmetry, 1D positive
    semi-definiteness on every stripe, Opticom normalisation, soundness of the residual checker. *)
-From Coq Require Import ZArith List QArith Qcanon Bool Lia Lra Lqa.
+From Coq Require Import ZArith List QArith Qcanon Bool Lia Lqa.
 From SG Require Import Base.QcUtil Base.PolyInt Model.Gram Model.Regress
   Proofs.GramHat Proofs.GramEntries Proofs.GramPD Proofs.GramNorm.
 Import ListNotations.
